@@ -186,7 +186,19 @@ def gen_sessions(ctx, salt, nsess, boards_choices, strategies_per, arrivals_fn=N
                 po = []
         for a in arr:
             a['passout_boards'] = po
-        base = dict(boards=gen_boards(r, nb), arrivals=arr)
+        boards = gen_boards(r, nb)
+        if i % 8 == 1 and not arrivals_fn:
+            # the two ends of the trick count: each hand is one complete suit; the dealer opens 1NT (the defence cashes thirteen tricks,
+            # declarer's side wins none) on the first such board and seven of its own suit (thirteen tricks) on the second
+            forced = {}
+            for k, kind in list(zip([b for b in range(1, nb + 1) if b not in po], ('nt', 'trump'))):
+                suits = [0, 1, 2, 3]
+                r.shuffle(suits)
+                boards[k - 1]['deal'] = [list(range(13 * x, 13 * x + 13)) for x in suits]
+                forced[str(k)] = kind
+            for a in arr:
+                a['forced'] = forced
+        base = dict(boards=boards, arrivals=arr)
         strats = ['rr'] + r.sample(STRATEGIES[1:], strategies_per - 1)
         for st in strats:
             out.append(dict(base, strategy=st, sched_seed=r.randint(0, 10 ** 6)))
